@@ -1,8 +1,72 @@
-(* C18 — placeholder theorems (totality of both models); the property itself is decided on every
-   run by the checks described in DESIGN.md.  To be replaced by the real statement. *)
+(* C18 — Persistent-reference hooks are called as documented and invert each other. *)
 From Coq Require Import List ZArith NArith Bool.
-From OgRek Require Import Base Value Reader Decoder DecoderFacts Encoder EncoderFacts.
-Theorem C18_partial_totality :
-  (forall cfg st inp, fst (fst (decode cfg st inp)) <> Panic /\ fst (fst (decode cfg st inp)) <> OutOfFuel)
-  /\ (forall c v fa, snd (run_w (encode c v) fa) <> EPanic).
-Proof. split; [exact decode_safe|exact encode_no_panic]. Qed.
+From Coq.Strings Require Import Byte.
+From OgRek Require Import Base Value Reader Decoder Encoder TypingFacts HookFacts.
+Import ListNotations.
+
+(* ---- Decode side: d_log is the list of Refs handed to PersistentLoad, most recent first ------- *)
+
+(* no opcode other than PERSID / BINPERSID ever calls PersistentLoad: on every path of every
+   other handler the call log is unchanged *)
+Theorem C18_only_persid_opcodes_call :
+  forall cfg op key insn st, is_persid_op op = false ->
+    leaves (fun o => d_log (st_of o) = d_log st) (handler cfg op key insn st).
+Proof. exact other_opcodes_keep_log. Qed.
+Print Assumptions C18_only_persid_opcodes_call.
+
+(* PERSID: the id is the line read; BINPERSID: the id is the popped (non-marker) stack top;
+   both go through handleRef ... *)
+Theorem C18_persid : forall cfg key insn st,
+  handler cfg OPersid key insn st = RdLine (fun pid => handle_ref cfg st (VStr pid)).
+Proof. exact persid_handler. Qed.
+Theorem C18_binpersid : forall cfg key insn st v t,
+  d_stack st = v :: t -> is_mark v = false ->
+  handler cfg OBinpersid key insn st = handle_ref cfg (set_stack st t) v.
+Proof. exact binpersid_handler. Qed.
+
+(* ... which calls the hook exactly once with Ref{id} (one log entry, call index = number of
+   earlier calls): a non-nil result replaces the reference, nil keeps the Ref, an error aborts
+   Decode with an error; without a hook the Ref is pushed and nothing is logged *)
+Theorem C18_handle_ref : forall cfg st pid,
+  handle_ref cfg st pid =
+  match c_load cfg with
+  | None => ok (push (VRef pid) st)
+  | Some f =>
+      let st1 := add_log st (VRef pid) in
+      match f (Nlen (d_log st)) pid with
+      | LErr => fail st1 EOther
+      | LNil => ok (push (VRef pid) st1)
+      | LObj o => ok (push o st1)
+      end
+  end.
+Proof. exact handle_ref_spec. Qed.
+Print Assumptions C18_handle_ref.
+
+(* the Ref passed to the hook never contains the stack marker (C16's invariant covers d_log) *)
+
+(* ---- Encode side: rval carries PersistentRef's answer for each pointer (RPtr to_struct ref v) - *)
+
+(* consulted only for pointers to structs; a nil answer means regular encoding of the pointee *)
+Theorem C18_not_consulted_or_nil : forall c x,
+  (forall r, enc c (RPtr false r x) = enc c x) /\ (forall b, enc c (RPtr b None x) = enc c x).
+Proof. intros c x. split; [intros r; apply enc_ptr_not_struct|intros b; apply enc_ptr_without_ref]. Qed.
+
+(* a non-nil Ref is emitted as a persistent reference with that id: protocol >= 1: the id, then
+   BINPERSID; protocol 0: P<id>\n for single-line string ids, otherwise the documented error *)
+Theorem C18_ref_emitted : forall c pid x,
+  enc c (RPtr true (Some pid) x) = enc_ref c pid (enc c pid) /\
+  ((1 <= e_proto c)%Z -> enc_ref c pid (enc c pid) = wseq (enc c pid) (emit [x51])) /\
+  (e_proto c = 0%Z -> forall s, pid = RStr SPlain s -> has_lf s = false ->
+     enc_ref c pid (enc c pid) = emit (x50 :: s ++ [x0a])) /\
+  (e_proto c = 0%Z -> (forall s, pid = RStr SPlain s -> has_lf s = true) ->
+     enc_ref c pid (enc c pid) = WFail EP0Persid).
+Proof.
+  intros c pid x. split; [apply enc_ptr_with_ref|]. split; [apply enc_ref_binary|]. split.
+  - intros H s -> L. apply enc_ref_p0_string; assumption.
+  - intros H N. apply enc_ref_p0_other; assumption.
+Qed.
+Print Assumptions C18_ref_emitted.
+
+(* NOT YET PROVED (partial): that Decode with the inverse PersistentLoad applied to Encode's output
+   restores the object graph - it needs the round-trip theorem of C03.  Decided on every run by
+   decoding the encoder output again and by comparing the hook call logs with CPython's. *)
